@@ -377,6 +377,40 @@ def assemble (gd : Nat → Nat → Int → Except Err Bytes) (before cutEnd : Na
   | .error e => .error e
   | .ok (out, _) => .ok out.flatten
 
+/-- is the section read without decryption? (`assume_decrypted`, NoCrypto, or one of the never-encrypted regions) -/
+def plainSec (s : State) (sec : Nat) : Bool :=
+  s.assumeDecrypted || s.flags.noCrypto || sec == secHeader || sec == secLogo || sec == secPlain || sec == secRaw
+
+/-- the plaintext of a whole section, as `get_data` serves slices of it: the window itself, or the window under the CTR
+    keystream of its keyslot, or (two-key ExeFS) the concatenation of the per-range decryptions.  Empty when a key is missing. -/
+def secSrc (E : Bytes → Bytes → Bytes) (s : State) (file : Bytes) (start : Nat) (sec : Nat) : Bytes :=
+  match s.region? sec with
+  | none => []
+  | some r =>
+    if plainSec s sec then slice file (start + r.offset) r.size
+    else if sec == secExeFS then
+      match openRaw s start secExeFS with
+      | .ok (.merged off sz iv segs) =>
+        (segs.flatMap fun (k, lo, hi) => ctrAt E k iv lo (slice (slice file off sz) lo (hi - lo))).take r.size
+      | .ok (.ctr key iv off sz) => (ctrAt E key iv 0 (slice file off sz)).take r.size
+      | .ok (.window off sz) => (slice file off sz).take r.size
+      | _ => []
+    else
+      match normalKey s (if sec == secRomFS then 0x44 else s.mainSlot) with
+      | .ok k => ctrAt E k r.iv 0 (slice file (start + r.offset) r.size)
+      | .error _ => []
+
+/-- the decidable form of the hypotheses of the one-image theorem for the first `N` chunks: the six regions stay apart, every
+    chunk lies inside the plaintext of its section (or inside the file, for a pass-through chunk), the header is the chunk at 0 -/
+def readGeomB (E : Bytes → Bytes → Bytes) (s : State) (file : Bytes) (start : Nat) (N : Nat) : Bool :=
+  let lens := (List.range 9).map fun sec => (secSrc E s file start sec).length
+  regionsApart s &&
+  (List.range N).all fun i =>
+    decide ((chunkKey s (0x200 * i)).2 + 0x200 ≤ lens.getD (chunkKey s (0x200 * i)).1.1 0) &&
+    decide ((chunkKey s (0x200 * i)).1.1 < 9) &&
+    ((chunkKey s (0x200 * i)).1.1 != secHeader ||
+      (decide ((chunkKey s (0x200 * i)).2 = 0) && decide (lens.getD secHeader 0 = 0x200)))
+
 /-- `get_data(FullDecrypted, offset, size)` -/
 def fullRead (E : Bytes → Bytes → Bytes) (s : State) (file : Bytes) (start : Nat) (offset : Nat) (size : Int) :
     Except Err Bytes :=
